@@ -518,12 +518,13 @@ type ivScenario struct {
 	Threshold  uint32 `json:"threshold,omitempty"`
 	Writes     int    `json:"writes"`
 	GapsMs     []int  `json:"gaps_ms"`
+	Outages    int    `json:"outages_before_the_writes,omitempty"`
 }
 
 func TestC20Interval(t *testing.T) {
 	e := vrun.LoadEnv()
 	meta := vrun.Meta{Property: "C20", Workload: "TestC20Interval", Total: e.Pick(200, 20000),
-		Rule:        "virtual time (testing/synctest bubble): policy interval or interval-or-size with interval 1ms..5s, 3-30 writes separated by gaps drawn around the interval (0, interval/3, interval-1ms, interval, interval+1ms, 3*interval); oracle: every accepted point is handed to the transport no later than one interval + 1 ms (virtual) after its write returned, and conservation holds at close; non-trivial = >=2 chunks cut by the ticker; distinct = (policy, interval, gap pattern signature)",
+		Rule:        "virtual time (testing/synctest bubble): policy interval or interval-or-size with interval 1ms..5s, in a third of the cases 1-2 outages (link severed, stream resumed) first, then 3-30 writes separated by gaps drawn around the interval (0, interval/3, interval-1ms, interval, interval+1ms, 3*interval); oracle: every accepted point is handed to the transport no later than one interval + 1 ms (virtual) after its write returned, and conservation holds at close; non-trivial = >=2 chunks cut by the ticker; distinct = (policy, interval, gap pattern signature)",
 		Assumptions: []string{"'sent' is judged at the transport boundary: the virtual time at which the library's transport Write of the chunk was recorded"}}
 	vrun.Loop(t, meta, 0, func(c *vrun.Case) vrun.Result {
 		s := ivScenario{Policy: []string{"interval", "interval-or-size"}[c.Rng.Intn(2)]}
@@ -535,6 +536,9 @@ func TestC20Interval(t *testing.T) {
 		iv := s.IntervalMs
 		for i := 0; i < s.Writes; i++ {
 			s.GapsMs = append(s.GapsMs, []int{0, iv / 3, iv - 1, iv, iv + 1, 3 * iv, 0, 0}[c.Rng.Intn(8)])
+		}
+		if c.Rng.Intn(3) == 0 {
+			s.Outages = 1 + c.Rng.Intn(2)
 		}
 		var res vrun.Result
 		func() {
@@ -559,7 +563,11 @@ func runInterval(s ivScenario) vrun.Result {
 	w := world.New()
 	w.Start()
 	defer w.Close()
-	conn, err := w.Connect(iscp.WithConnPingInterval(time.Hour))
+	pingIv := time.Hour
+	if s.Outages > 0 {
+		pingIv = time.Second
+	}
+	conn, err := w.Connect(iscp.WithConnPingInterval(pingIv), iscp.WithConnPingTimeout(time.Second))
 	if err != nil {
 		return vrun.Inconcl("connect: " + err.Error())
 	}
@@ -578,6 +586,24 @@ func runInterval(s ivScenario) vrun.Result {
 		return vrun.Inconcl("open: " + err.Error())
 	}
 	id := message.DataID{Name: "d", Type: "t"}
+	// outages before the judged writes: the policy must keep cutting on every later incarnation of the stream
+	for k := 1; k <= s.Outages; k++ {
+		rec.Write(ctx, up, 2, id, []int{k}, []int{10})
+		time.Sleep(iv + 2*time.Millisecond)
+		if cur := w.Net.Current(); cur != nil {
+			cur.Fail(memnet.Sever)
+		}
+		resumed := false
+		for i := 0; i < 600 && !resumed; i++ {
+			time.Sleep(100 * time.Millisecond)
+			_, _, _, _ = rec.Snapshot()
+			resumed = rec.ResumedCount() >= k
+		}
+		if !resumed {
+			conn.Close(ctx)
+			return vrun.Inconcl("the upstream did not resume within 60 virtual seconds after the link was severed")
+		}
+	}
 	for i := 0; i < s.Writes; i++ {
 		rec.Write(ctx, up, 1, id, []int{i + 1}, []int{100})
 		time.Sleep(time.Duration(s.GapsMs[i]) * time.Millisecond)
@@ -646,7 +672,10 @@ func runInterval(s ivScenario) vrun.Result {
 	for _, g := range s.GapsMs {
 		h = (h ^ uint64(g+1)) * 1099511628211
 	}
-	r := vrun.Hold(fmt.Sprintf("%s/%d/%d/%x", s.Policy, s.IntervalMs, s.Threshold, h), tickerChunks >= 2)
+	r := vrun.Hold(fmt.Sprintf("%s/%d/%d/%x/o%d", s.Policy, s.IntervalMs, s.Threshold, h, s.Outages), tickerChunks >= 2)
+	if s.Outages > 0 {
+		r.Stat("cases_with_outages_before_the_writes", 1)
+	}
 	r.Stat("chunks_before_close", int64(tickerChunks))
 	r.Stat("points_timed", int64(len(sentAt)))
 	return r
